@@ -45,7 +45,7 @@ def encode_part(rep, cands, table, timeout, props=('C13',)):
                     if r == 'sat': cands.append(dict(role=f'asm/{kind.split("(")[0]}/panic:{p.payload[0][:40]}', detail=f'{name}: {p.payload}', model=md(m), friendly=True))
                     continue
                 if p.kind != 'return': pr.out['errors'].append(f'encode {name}: path kind {p.kind}'); continue
-                if 'C13' not in props: continue
+                if 'C13' not in props and 'C16' not in props: continue
                 isok = is_true(simplify(p.payload.disc() == 0))
                 if isok:
                     got = asmcheck.insn_fields(p.payload.payload[0][0])
@@ -208,7 +208,19 @@ def replay_asm(c):
             return {0: f'r{sa}', 1: f'{sa}', 2: f'[r{sa}{sb:+d}]', 3: ''}[d]
         txt = md['mnemonic'] + ' ' + ', '.join(op(o) for o in md['operands'])
     else: return True, 'solver model'
-    d = Driver.get('dev'); r = d.request(dict(op='assemble', text=txt + '\nexit'))
+    d = Driver.get('dev')
+    if 'N' in md and c['role'].split('/')[-1] in ('wrong-result', 'wrong-value', 'rejects-valid') and c['role'].split('/')[1] in ('hex-literal', 'decimal-literal'):
+        # a literal is observable through lddw (64-bit immediate: every value the literal parser lets through is encodable there)
+        Nv = int(md['N']); kind = c['role'].split('/')[1]; lit = (f'0x{Nv:x}' if kind == 'hex-literal' else str(Nv))
+        fits = Nv < (2 ** 64 if kind == 'hex-literal' else 2 ** 63)
+        r = d.request(dict(op='assemble', text=f'lddw r0, {lit}\nexit')); c['replay'] = dict(text=f'lddw r0, {lit}', native=r, documented_range_holds=fits)
+        if r.get('status') == 'panic': return True, f'assemble(lddw r0, {lit}) panics'
+        if not fits: return r.get('status') == 'ok', f'assemble(lddw r0, {lit}) -> {r.get("status")} although the literal is outside the documented range'
+        if r.get('status') != 'ok': return True, f'assemble(lddw r0, {lit}) -> {r.get("status")} although the literal is in range'
+        want = (0x18).to_bytes(1, 'little') + bytes(3) + (Nv & 0xffffffff).to_bytes(4, 'little') + bytes(4) + (Nv >> 32).to_bytes(4, 'little')
+        got = bytes.fromhex(r.get('bytes', '')) if isinstance(r.get('bytes'), str) else None
+        return (got is not None and got[:16] != want), f'assemble(lddw r0, {lit}) -> {r.get("bytes")}'
+    r = d.request(dict(op='assemble', text=txt + '\nexit'))
     c['replay'] = dict(text=txt, native=r)
     if r.get('status') == 'panic': return True, f'assemble({txt!r}) panics: {r.get("msg")}'
     if r.get('status') == 'unknown_op': return True, 'solver model (no native assemble op)'
